@@ -395,6 +395,8 @@ def fn_parts(src, a, b):
                 angle += 1
             elif t.text == ">" and toks[k - 1].text == "-" and depth == 0 and angle == 0 and arrow is None:
                 arrow = k
+            elif t.text == ">" and toks[k - 1].text == "-":
+                pass  # the arrow of an `Fn(..) -> T` bound inside the return type
             elif t.text == ">":
                 angle -= 1
             elif t.text in ("{", ";") and depth == 0:
